@@ -406,6 +406,11 @@ def hostile_cases():
               ("import-dotted-user-module", "import c11_canary_pkg.patterns\ny = 1\n"), ("import-user-package", "import c11_canary_pkg\ny = 1\n"),
               ("import-user-package-as", "from c11_canary_pkg import patterns as p\ny = 1\n"), ("import-inside-function", "def f():\n    import c11_canary_pkg.patterns\n    return 1\ny = f()\n"),
               ("import-stdlib-dotted", "import wsgiref.util\nimport xml.dom.minidom\ny = 1\n"), ("import-relative", "from . import c11_canary_pkg\ny = 1\n"),
+              ("bare-except", "x = 1\ntry:\n    x = 2\nexcept:\n    x = 3\n"), ("bare-except-in-main-loop", "x = 1\nwhile True:\n    try:\n        x = 2\n    except:\n        x = 3\n"),
+              ("bare-except-in-helper", "def f():\n    try:\n        return 1\n    except:\n        return 2\ny = f()\n"), ("named-then-bare-except", "x = 1\ntry:\n    x = 2\nexcept ValueError:\n    x = 3\nexcept:\n    x = 4\n"),
+              ("except-tuple", "x = 1\ntry:\n    x = 2\nexcept (ValueError, TypeError):\n    x = 3\n"), ("except-as", "x = 1\ntry:\n    x = 2\nexcept Exception as e:\n    x = 3\n"),
+              ("try-finally", "x = 1\ntry:\n    x = 2\nfinally:\n    x = 3\n"), ("try-else", "x = 1\ntry:\n    x = 2\nexcept Exception:\n    x = 3\nelse:\n    x = 4\n"),
+              ("nested-try", "x = 1\ntry:\n    try:\n        x = 2\n    except:\n        x = 3\nexcept a.b.C:\n    x = 4\n"),
               ("self-call-with-growing-list-type", "def f(a):\n    return f([a])\nx = f(1)\n"),
               ("self-call-with-growing-list-type-two-helpers", "def f(a):\n    return g([a])\ndef g(b):\n    return f([b])\nx = f(1)\n"),
               ("self-call-with-growing-list-type-in-branch", "def f(a, n):\n    if n > 0:\n        return f([a], n - 1)\n    return 0\nx = f(1, 3)\n"),
